@@ -3079,6 +3079,7 @@ template <typename T>
         {
           sequences->validate(severity::fatal, name, loc);
         }
+        send_ok_report<specialized>(name);
         sequences->increment_call();
         sequences->retire_predecessors();
         if (sequences->is_saturated())
@@ -3385,9 +3386,6 @@ template <typename T>
                       e.saturated,
                       func_name + std::string(" with signature ") + sig_name,
                       param_value);
-    }
-    else{
-        report_match(e.active);
     }
     trace_agent ta{i->loc, i->name, tracer_obj()};
     try
